@@ -50,6 +50,12 @@ Theorem C08_lat_name_refused : forall (dims : list string), extract_latitude_dim
 Proof. exact lat_lookup_none. Qed.
 Print Assumptions C08_lat_name_refused.
 
+(* the lookup does not depend on the order in which the feature dimensions are named *)
+Theorem C08_lat_name_order_free : forall (dims dims' : list string), Permutation.Permutation dims dims' ->
+  extract_latitude_dimension dims = extract_latitude_dimension dims'.
+Proof. exact lat_lookup_perm. Qed.
+Print Assumptions C08_lat_name_order_free.
+
 (* global factor c <> 0 (oracle-relative): an admissible answer for X maps to one for c X; scores scale by c,
    singular values by |c|, explained variance by c^2, components unchanged *)
 Theorem C08_global_scale_admissible : forall (n p r : nat) (X U : list (list R)) (s : list R) (Vt : list (list R)) (c : R),
